@@ -7,8 +7,8 @@ import (
 	"strings"
 )
 
-const ov19Dir = "/verif/bin/ov19"
-const vmc19Path = "/verif/bin/vmc19"
+var ov19Dir = verifRoot + "/bin/ov19"
+var vmc19Path = verifRoot + "/bin/vmc19"
 
 // c19Run is set by c19run.go (build tag c19: it needs the symbols the overlay adds).
 var c19Run func(c *Ctx)
@@ -36,7 +36,7 @@ func init() {
 			}
 			fmt.Printf("C19: package-level variables of libvore: %v\n", globals)
 			cmd := exec.Command("go", "build", "-tags", "verif c19", "-overlay", ov19Dir+"/overlay.json", "-o", vmc19Path, ".")
-			cmd.Dir = "/verif/vmc"
+			cmd.Dir = verifRoot + "/vmc"
 			out, err := cmd.CombinedOutput()
 			if err != nil {
 				return fmt.Errorf("building the instrumented harness failed: %v\n%s", err, out)
